@@ -145,9 +145,9 @@ class Ctx:
         return []
 
     def require_at(self, rule, f: Func, site: ast.AST, dnf, instance="", native=False, inject=(), assume=None,
-                   what=""):
+                   what="", broad=False):
         """every abstract state reaching `site` satisfies one disjunct (list of fact texts / tuples)"""
-        r = self.explore(f, native=native, inject=inject, assume=assume)
+        r = self.explore(f, native=native, inject=inject, assume=assume, broad=broad)
         g = r.cfg
         nodes = self.cfg_nodes_of(g, site)
         al = r.aliases
@@ -193,8 +193,8 @@ class Ctx:
         r = self.explore(f, native=native)
         return any(r.states_at.get(n.id) for n in self.cfg_nodes_of(r.cfg, site))
 
-    def facts_at(self, f: Func, site, native=False, inject=(), assume=None):
-        r = self.explore(f, native=native, inject=inject, assume=assume)
+    def facts_at(self, f: Func, site, native=False, inject=(), assume=None, broad=False):
+        r = self.explore(f, native=native, inject=inject, assume=assume, broad=broad)
         nodes = self.cfg_nodes_of(r.cfg, site)
         return [facts for n in nodes for facts, _ in r.states_at.get(n.id, [])]
 
